@@ -446,3 +446,60 @@ def norm_slices(x):
         if x and x[0] == "slice": return ("slice", x[1], x[2], 1 if x[3] is None else x[3])
         return tuple(norm_slices(y) for y in x)
     return x
+
+
+# ---------------------------------------------------------------- single-fault ill-typed queries
+def _calls(e, path=()):
+    """paths to every call node inside expression e"""
+    out = []
+    if not isinstance(e, tuple): return out
+    k = e[0]
+    if k == "call":
+        out.append(path)
+        for i, a in enumerate(e[2]): out += _calls(a, path + (("arg", i),))
+    elif k == "not": out += _calls(e[1], path + ((1,),))
+    elif k in ("and", "or"): out += _calls(e[1], path + ((1,),)) + _calls(e[2], path + ((2,),))
+    elif k == "cmp": out += _calls(e[2], path + ((2,),)) + _calls(e[3], path + ((3,),))
+    return out
+
+
+def _replace(e, path, f):
+    if not path: return f(e)
+    step = path[0]
+    if step[0] == "arg":
+        args = list(e[2]); args[step[1]] = _replace(args[step[1]], path[1:], f)
+        return ("call", e[1], args)
+    lst = list(e); lst[step[0]] = _replace(lst[step[0]], path[1:], f)
+    return tuple(lst)
+
+
+def inject_fault(rng, e, names, reg):
+    """one well-typedness fault in an otherwise well-typed test expression (or None if it has no call)"""
+    cs = _calls(e)
+    if not cs: return None
+    path = rng.choice(cs)
+
+    def fault(call):
+        name, args = call[1], list(call[2])
+        f = [x for x in reg if x[0] == name][0]
+        r = rng.random()
+        if r < 0.2 or not args:           # wrong arity
+            if args and rng.random() < 0.5: args.pop()
+            else: args.append(rand_literal(rng))
+            return ("call", name, args)
+        i = rng.randrange(len(args))
+        t = f[1][i]
+        wrong = [x for x in (1, 2, 3) if x != t]
+        w = rng.choice(wrong)
+        # an expression of type w that is NOT acceptable for a parameter of type t
+        if t == 1:      # ValueType parameter: give a non-singular query, a logical expression or a Logical/Nodes call
+            cand = [("rel", [("child", [("wild",)])]), ("cmp", "==", ("rel", []), ("lit", 1)), gen_call(rng, names, reg, 1, [2, 3])]
+        elif t == 2:    # LogicalType parameter: a literal or a ValueType call
+            cand = [rand_literal(rng), gen_call(rng, names, reg, 1, [1])]
+        else:           # NodesType parameter: a literal, a logical expression, a Value/Logical call
+            cand = [rand_literal(rng), ("cmp", "==", ("rel", []), ("lit", 1)), gen_call(rng, names, reg, 1, [1]), gen_call(rng, names, reg, 1, [2]),
+                    ("not", ("rel", [("child", [("name", "a")])]))]
+        cand = [c for c in cand if c is not None]
+        args[i] = rng.choice(cand)
+        return ("call", name, args)
+    return _replace(e, path, fault)
